@@ -1,6 +1,6 @@
 #!/bin/sh
 # usage: tools/try_mutant.sh <patch.diff> <Cxx> [tier]   -- applies the patch to /repo, runs the check, reverts
-P="$1"; C="$2"; T="${3:-quick}"
+P="$(readlink -f "$1")"; C="$2"; T="${3:-quick}"
 cd /repo || exit 2
 git diff --quiet || { echo "/repo not clean"; exit 2; }
 git apply "$P" || { echo "patch does not apply"; exit 2; }
